@@ -17,4 +17,14 @@ theorem Pool_Put : Generated.fp_drpcpool_pool_Pool_Put = Expected.fp_drpcpool_po
 theorem list_appendEntry : Generated.fp_drpcpool_entry_list_appendEntry = Expected.fp_drpcpool_entry_list_appendEntry := by decide
 theorem list_removeEntry : Generated.fp_drpcpool_entry_list_removeEntry = Expected.fp_drpcpool_entry_list_removeEntry := by decide
 
+/-! constructors, accessors and small helpers -/
+theorem x_drpcpool_pool_New : Generated.fp_drpcpool_pool_New = Expected.fp_drpcpool_pool_New := by decide
+theorem x_drpcpool_pool_Pool_Get : Generated.fp_drpcpool_pool_Pool_Get = Expected.fp_drpcpool_pool_Pool_Get := by decide
+theorem x_drpcpool_doc_closed : Generated.fp_drpcpool_doc_closed = Expected.fp_drpcpool_doc_closed := by decide
+theorem x_drpcpool_entry_entry_globalList : Generated.fp_drpcpool_entry_entry_globalList = Expected.fp_drpcpool_entry_entry_globalList := by decide
+theorem x_drpcpool_entry_entry_localList : Generated.fp_drpcpool_entry_entry_localList = Expected.fp_drpcpool_entry_entry_localList := by decide
+theorem x_drpcpool_conn_poolConn_Closed : Generated.fp_drpcpool_conn_poolConn_Closed = Expected.fp_drpcpool_conn_poolConn_Closed := by decide
+theorem x_drpcpool_conn_streamWrapper_Context : Generated.fp_drpcpool_conn_streamWrapper_Context = Expected.fp_drpcpool_conn_streamWrapper_Context := by decide
+theorem x_drpcpool_conn_streamWrapperContext_Done : Generated.fp_drpcpool_conn_streamWrapperContext_Done = Expected.fp_drpcpool_conn_streamWrapperContext_Done := by decide
+
 end Drpc.Tie.C15
